@@ -276,6 +276,17 @@ func ruleShrinkSafe(c *Ctx) {
 				okP = false
 			}
 		}
+		okZero := true
+		for _, b := range fn.Blocks {
+			r, ok := b.Instrs[len(b.Instrs)-1].(*ssa.Return)
+			if !ok || b == blk || blk.Dominates(b) || len(r.Results) != 1 {
+				continue
+			}
+			if !isConstZero(r.Results[0]) {
+				okZero = false
+			}
+		}
+		c.check(okZero, name+":returns-0-otherwise", k.Copy.Pos(), "returns 0 whenever nothing was discarded", "the compaction function returns a non-zero value on a path that discards nothing: callers subtract the result from lengths captured before the call (R-STALELEN), so byte counts and Off would be wrong")
 		c.check(okP && nZ > 0, name+":frees-all", k.Copy.Pos(), "compaction is skipped only when δ = min(R, len(Data)−WindowSize) is 0 or the request already fits: every drained byte outside the window is released",
 			"the compaction function can return without compacting although δ > 0 (space that a drain made reclaimable is held back): the Decoder's retry loops rely on a drain followed by compaction making progress and would spin")
 	}
@@ -2088,6 +2099,50 @@ func ruleErrSurface(c *Ctx) {
 				}
 				// and no way to continue the loop with a non-nil error: the block after the test on the nil side
 				c.check(ok2, key, call.Pos(), "a non-nil writer error is returned", "the writer's error from WriteTo is not returned to the caller when it is non-nil")
+				// nothing else may happen while the error can still be non-nil: every return reached
+				// from the drain returns that error unless err == nil is known there, and the loop is
+				// continued only under err == nil
+				nilKnown := func(bb *ssa.BasicBlock) bool {
+					for _, cd := range fi.condsAt(bb) {
+						if isNilCmp(cd, errv) == -1 {
+							return true
+						}
+					}
+					return false
+				}
+				var stop *ssa.BasicBlock
+				lp := fi.loopOf(b)
+				if lp != nil {
+					stop = lp.Header
+				}
+				reach := map[*ssa.BasicBlock]bool{}
+				if stop != nil {
+					reach = fi.reachAvoid(b, stop)
+				} else {
+					for bb := range fi.reach[b] {
+						reach[bb] = true
+					}
+				}
+				bad := ""
+				for bb := range reach {
+					if bb == b {
+						continue
+					}
+					if r, isR := bb.Instrs[len(bb.Instrs)-1].(*ssa.Return); isR {
+						last := r.Results[len(r.Results)-1]
+						if last != errv && !nilKnown(bb) {
+							bad = fmt.Sprintf("the return at %s can be reached while the writer's error is still non-nil and returns a different error value", c.pos(r.Pos()))
+						}
+					}
+					if lp != nil {
+						for _, sc := range bb.Succs {
+							if sc == lp.Header && !nilKnown(bb) {
+								bad = "the loop can be continued while the writer's error is non-nil"
+							}
+						}
+					}
+				}
+				c.check(bad == "", key+":first", call.Pos(), "after a drain nothing is returned or retried before the writer's error was tested", bad+": the writer's error is masked or acted upon too late")
 			}
 		}
 	}
